@@ -22,6 +22,7 @@ def run(ctx):
     ctx.guard(defaults, ctx)
     ctx.guard(order, ctx)
     ctx.guard(generators, ctx)
+    ctx.guard(forwarding, ctx)
     ctx.assume('a random 128-bit uuid4 is never 0 and never repeats (probabilistic; not decided)')
     ctx.assume('user supplied generators honour the IdGenerator contract')
     return ('Abstract execution of MetaClass.default_value for every type name (in declared and in other letter '
@@ -228,6 +229,36 @@ def _assign_phase(r, Q, lp, inst, positional):
     r.check(pm.match(['_D[%s] = %s' % (name, value)], ref) is not None,
             '%s referential argument is collected for the batch relate' % what, g, construct=Q, key=what + '-collect',
             msg='%s phase does not collect referential values as <dict>[%s] = %s' % (what, name, value))
+
+
+def forwarding(ctx):
+    '''a metamodel subclass hands the id generator it is given on to MetaModel.__init__'''
+    repo = ctx.repo
+    r = ctx.rule('C19-FORWARD', 'subclasses of MetaModel pass their id_generator to the base constructor', floor=1,
+                 oracle='MetaModel.__init__(self, id_generator=None) stores the generator that default_value draws from')
+    base = repo.func('xtuml.meta:MetaModel.__init__')
+    gp = [p_ for p_ in param_names(base) if 'generator' in p_]
+    if not gp:
+        raise AnalysisError('%s: MetaModel.__init__ has no id generator parameter' % loc(base))
+    for modname, mod in sorted(repo.modules.items()):
+        for c in [n for n in mod.tree.body if isinstance(n, ast.ClassDef)]:
+            if not any((dotted(b) or '').split('.')[-1] == 'MetaModel' for b in c.bases):
+                continue
+            init = repo.methods(c).get('__init__')
+            q = '%s:%s.__init__' % (modname, c.name)
+            if init is None:
+                r.ok('%s inherits MetaModel.__init__' % c.name, c, construct=q)
+                continue
+            own = [p_ for p_ in param_names(init) if 'generator' in p_]
+            calls = [n for n in ast.walk(init) if isinstance(n, ast.Call) and call_attr(n) == '__init__']
+            ok = False
+            for cl in calls:
+                args = [a for a in cl.args] + [k.value for k in cl.keywords]
+                if own and any(isinstance(a, ast.Name) and a.id == own[0] for a in args):
+                    ok = True
+            r.check(ok or not own, '%s forwards `%s` to the base constructor' % (q, own[0] if own else '-'), init, construct=q, key='forward',
+                    msg='%s accepts `%s` but does not pass it to MetaModel.__init__: identifiers of new instances then come from the default '
+                        'generator, not from the one the caller supplied' % (q, own[0] if own else '?'))
 
 
 def generators(ctx):
